@@ -561,7 +561,7 @@ def cpp_part(chk, mods, stats, model_exe):
                                     "data": S.hexs(data), "value": v,
                                     "observed": "%s: %s" % (res.kind, res.err[-1200:]),
                                     "expected": "no sanitizer report / tripped runtime check"})
-            continue
+            out = [o for o in out if o.startswith("could=")]    # judge what was answered before
         preds = model_predict(model_exe, meta, byname, physmap, order) if model_exe else [None] * len(meta)
         for (nm, data, v), rl, pred in zip(meta, out, preds):
             chk.count()
@@ -807,6 +807,7 @@ def run_winf(chk, tier, model_exe, stats, budget="run"):
             corpus.append((pin["emb"], [tuple(p) for p in pin.get("phys", [["f0", "UInt", 4, 0]])],
                            int(pin["emb"].split('namespace: "vw')[1].split('"')[0])))
     n_cpp += len(corpus)
+    types_only, n_types_only = 0, (16 if tier == "quick" else 10 ** 6)
     for i in range(n):
         if i < len(corpus):
             text, phys, idx = corpus[i]
@@ -817,6 +818,12 @@ def run_winf(chk, tier, model_exe, stats, budget="run"):
         if got is not None and len(mods) < n_cpp:
             ir, struct, index = got
             mods.append((idx, text, ir, struct, index, phys))
+        elif got is not None and types_only < n_types_only:
+            # type-selection tie only (header generated, not compiled)
+            types_only += 1
+            header, herr = emb.generate_header(got[0])
+            if header is not None and not herr:
+                check_types(chk, text, got[1]["structure"]["field"], header, stats, model_exe)
     stats["winf_modules"] = n
     if mods:
         cpp_part(chk, mods, stats, model_exe)
